@@ -344,7 +344,7 @@ fn replay(level: usize) {
                             t.bad(rec);
                         } else if let Some(d) = dev {
                             t.dev(d, rec);
-                        } else if t.samples.len() < 3 && !headers.is_empty() && m == 1 {
+                        } else if t.samples.iter().filter(|x| x.get("serialised").is_some()).count() < 2 && !headers.is_empty() && m + 1 == maps && n_s % 7 == 5 {
                             t.samples.push(json!({"response": r, "serialised": show(&bytes)}));
                         }
                         // parse what the real serialiser produced with the real parser
@@ -395,7 +395,7 @@ fn replay(level: usize) {
                             break;
                         }
                     }
-                    if t.samples.len() < 6 && frames.len() >= 5 && m == 2 {
+                    if t.samples.iter().filter(|x| x.get("wire").is_some()).count() < 2 && frames.len() >= 5 && m == 2 && n_p % 211 == 7 {
                         t.samples.push(json!({"wire": show(&wire), "parsed": exp}));
                     }
                 }
@@ -458,7 +458,7 @@ fn replay(level: usize) {
                 }
                 if !what.is_empty() {
                     t.bad(json!({"kind": "cookie", "vector": v, "what": what, "attrs": attrs, "expected_pair": v["pair"], "expected_attributes": avs, "got": h.value, "serialised": show(&bytes)}));
-                } else if t.samples.len() < 8 && attrs.len() == 7 && v["samesite"] == "Lax" && v["maxage"] == 3600 {
+                } else if t.samples.iter().filter(|x| x.get("header_value").is_some()).count() < 1 && attrs.len() == 7 && v["samesite"] == "Lax" && v["maxage"] == 3600 {
                     t.samples.push(json!({"cookie_attrs": attrs, "header_value": h.value}));
                 }
             }
